@@ -138,6 +138,9 @@ func (f *Flat) CheckChain(r *Report, rule string, fi *FuncInfo, steps []step) bo
 			if s.Kind == "none" {
 				continue // the step cannot fail (no error result)
 			}
+			if s.Kind == "returned" {
+				continue // the step's own result is what the function returns
+			}
 			ok, t, st := f.GatedBy(s, next, steps[i].Tolerated...)
 			if !ok {
 				pos := p.pos(s.Call)
